@@ -15,11 +15,17 @@ CONSTANTS EntryPoints, Defused, MaxConstructs
 EntityDecls == {"entity_internal", "entity_external_file", "entity_external_http", "entity_parameter", "entity_chain"}
 \* decl_latin1 / decl_utf16text: the document is handed over as text whose XML declaration names another
 \* encoding than the one the text will be encoded in
-Harmless   == {"doctype_plain", "external_dtd", "xinclude", "stylesheet_pi", "utf16", "bom", "decl_latin1", "decl_utf16text"}
+\* additional_location: (metadata documents) an md:AdditionalMetadataLocation pointing at the canary host -- a pointer the
+\* document offers, never something to be fetched because the document says so
+Harmless   == {"doctype_plain", "external_dtd", "xinclude", "stylesheet_pi", "utf16", "bom", "decl_latin1", "decl_utf16text",
+               "additional_location"}
 \* bad_*: a complete document handed over as bytes that are not valid in its encoding (stray byte, overlong form,
 \* cut multi-byte character, lone UTF-16 surrogate): a fatal error for any XML processor
 BadEncoding == {"bad_utf8_byte", "bad_utf8_overlong", "bad_utf8_cut", "bad_utf16_surrogate"}
-Malformed  == {"truncate_open_tag", "truncate_mid_text", "truncate_before_close", "not_xml", "empty"} \cup BadEncoding
+\* leading_text / leading_headers / trailing_text: a complete document with something that is not XML in front of it (a form
+\* field name, an HTTP status line and headers) or behind it
+Malformed  == {"truncate_open_tag", "truncate_mid_text", "truncate_before_close", "not_xml", "empty",
+               "leading_text", "leading_headers", "trailing_text"} \cup BadEncoding
 Constructs == EntityDecls \cup Harmless \cup Malformed
 \* constructs that cannot be combined in one document
 Compatible(w) == /\ Cardinality(w \cap Malformed) <= 1
